@@ -7,6 +7,8 @@ import Astits.Proofs.Loss
 import Astits.Props.C02
 import Astits.Generated.Exprs
 import Astits.Generated.Facts
+import Astits.Proofs.LossTable
+import Astits.Props.C09
 namespace Astits.C06
 
 /-! #### tie: the Go predicates of today are the model's -/
@@ -437,5 +439,243 @@ example : ∀ v ∈ lunits 8, ∀ f, Headless v f → NoFalseStart .none [] f :=
   · exact h2
 
 end LossClause
+
+/-! ## P3 — the loss clause for TABLE PIDs (`(pid == 0 || pm.has pid) = true`: early flush by `isPSIComplete`)
+
+Helpers: `Proofs/LossTable.lean` (namespace `Astits.LossTable`): a generic invariant of the accumulator of a table PID
+(`accRun_inv`: every group flushed and the queue are runs of the input — consecutive counters, no unit start except at
+the head — together with the REASON of the flush), then chains of PAT/PMT units with a gap. -/
+
+section LossClauseTables
+open Astits.Loss Astits.LossTable Astits.PSIComplete
+
+/-- **what the accumulator of a table PID does at the counter jump**: the queue is DISCARDED — not flushed — whatever it
+holds and even when the packet starts a unit; the packet is queued alone, or flushed at once when it looks complete by
+itself.  So the head of a unit whose completing packet is lost does NOT stay queued until the next unit start: it is
+thrown away by the first packet that follows the gap. -/
+theorem table_jump_discards (pm : ProgramMap) (pid : Nat) (q : List Packet) (p : Packet) (l : Nat)
+    (htab : (pid == 0 || pm.has pid) = true) (hq : lastCC q = some l) (hp : PlainPayload p)
+    (h1 : p.header.continuityCounter ≠ l) (h2 : p.header.continuityCounter ≠ (l + 1) % 16) :
+    accAdd pm pid q p = if isPSIComplete [p] then ([p], []) else ([], [p]) :=
+  accAdd_table_jump pm pid q p l htab hq hp h1 h2
+
+/-- a gap acts as a reset on a table PID too: what follows is read as from an empty queue -/
+theorem table_gap_resets (pm : ProgramMap) (pid : Nat) (q : List Packet) (p : Packet) (b : List Packet) (l : Nat)
+    (htab : (pid == 0 || pm.has pid) = true) (hq : lastCC q = some l) (hp : PlainPayload p)
+    (h1 : p.header.continuityCounter ≠ l) (h2 : p.header.continuityCounter ≠ (l + 1) % 16) :
+    accRun pm pid q (p :: b) = accRun pm pid [] (p :: b) :=
+  accRun_table_jump pm pid q p b l htab hq hp h1 h2
+
+/-- **(L1, table PIDs) never a splice** — the analogue of `loss_one_gap_no_splice`.  `ts`: a chain of well-formed PAT/PMT
+units (`TU.OK`: the hypotheses of `C02.table_unit_flushed` — unit layout, conformant cut points — with NO bound on the
+stuffing tail) with counters running on; `A ++ gap ++ B` its packets; `gap` (1..14 packets) lost, `B ≠ []`.  Every
+non-empty group handed to the unit parser for `A ++ B` is
+* `t.a ++ [t.pk]` for a unit `t` of the chain — the unit from its first to its completing packet, flushed at the completing
+  packet, exactly the loss-free group — or
+* a `Fragment` of one unit: a contiguous part of its packets that does not contain its first packet (headless remainder,
+  piece of one, stuffing-only tail packets); none of its packets starts a unit.
+Consequences: no group mixes two units or the two sides of the gap; a group that begins with a unit start is the whole
+unit — a unit that lost its completing packet or any packet before it is never delivered with wrong content: what was
+received of it before the gap is discarded (`table_jump_discards`), what is received after the gap is a `Fragment`.
+"False completes" of headless remainders are NOT excluded by hypothesis: they only cut the remainder into several
+fragments (see the evaluated example below: they do occur). -/
+theorem table_loss_one_gap_no_splice (pm : ProgramMap) (pid : Nat) (htab : (pid == 0 || pm.has pid) = true) (ts : List TU)
+    (hok : ∀ t ∈ ts, t.OK) (hc : ChainOK [] (ts.map (·.u))) (A gap B : List Packet)
+    (hs : (ts.map (·.u)).flatMap UnitPk.packets = A ++ gap ++ B) (hg1 : 1 ≤ gap.length) (hg2 : gap.length ≤ 14)
+    (hB : B ≠ []) (g : List Packet) (hne : g ≠ [])
+    (hmem : g ∈ (accRun pm pid [] (A ++ B)).1 ∨ g = (accRun pm pid [] (A ++ B)).2) :
+    (∃ t ∈ ts, g = t.a ++ [t.pk]) ∨
+    (∃ t ∈ ts, Fragment t.u g ∧ ∀ p ∈ g, p.header.payloadUnitStartIndicator = false) := by
+  rcases table_loss_no_splice pm pid htab ts hok hc A gap B hs hg1 hg2 hB g hne hmem with h | ⟨t, ht, hf⟩
+  · exact .inl h
+  · exact .inr ⟨t, ht, hf, hf.no_pusi (hok t ht).unit⟩
+
+/-- the generic invariant behind it, for ANY input of plain payload packets none of which repeats its predecessor's
+counter (several gaps, arbitrary payloads): every flushed group is a run of the input and was flushed either at the first
+moment it looked complete or by a unit start carrying the next counter -/
+theorem table_groups_are_runs (pm : ProgramMap) (pid : Nat) (htab : (pid == 0 || pm.has pid) = true) (s : List Packet)
+    (hs : StreamOK [] s) : LossTable.Inv s (accRun pm pid [] s).1 (accRun pm pid [] s).2 := accRun_inv pm pid htab s hs
+
+/-- **(a) when does a headless remainder look complete?**  Exactly when the pure walker says so on its bytes: the first
+byte is taken for a pointer_field `p`; from offset `1 + p` "sections" are skipped by their 12-bit length; the answer is
+true when a stop table id (0xff) is met or the walk ends exactly at the end of the bytes.  Nothing relates this to the
+real section boundaries once a packet is lost: a false "complete" is possible, and harmless for the no-splice property. -/
+theorem fragment_complete_iff (g : List Packet) : isPSIComplete g = completeNat (concatPayload g) := complete_eq _
+
+/-- **stuffing-only tail packets** (or any part of them): the group parses to no data and no error -/
+theorem table_stuffing_tail_no_data (pm : ProgramMap) (pid : Nat) (htab : (pid == 0 || pm.has pid) = true) (t : TU)
+    (ht : t.OK) (x g z : List Packet) (hb : t.b = x ++ g ++ z) (hpid : (g.headD default).header.pid = pid)
+    (hl : 0 < (concatPayload g).length) : parseData g .none pm = .ok [] := by
+  obtain ⟨ptr, filler, secs, stuffing, L, hbefore, hat, hcut⟩ := ht.layout
+  have hff := (table_unit_run_tail pm pid htab t.u ht.unit t.a t.pk t.b ht.split ptr filler secs stuffing L hat).1
+  refine parseData_stuffing pm pid htab g hpid hl ?_
+  intro b hbm
+  apply hff
+  rw [hb, concatPayload_append, concatPayload_append]
+  simp [hbm]
+
+/-- **(b) what a fragment can deliver**: whatever `parseData` returns for ANY group of a table PID (not the CAT PID 1) is
+`psiToData` of the sections `parsePSIData` found in the group's bytes, and every CRC-carrying section among them (PAT, PMT,
+…, section_length > 0) has, inside those bytes, a CRC_32 that matches (`C09.crc_mismatch_never_delivered`).  A headless
+fragment therefore yields data only if its bytes happen to contain — behind what is taken for the pointer_field — a whole
+CRC-valid section: the recorded finding `headless-fragment-looks-like-unit`; otherwise an error or no data. -/
+theorem table_group_data_checked (pm : ProgramMap) (g : List Packet)
+    (htab : ((g.headD default).header.pid == 0 || pm.has (g.headD default).header.pid) = true)
+    (hcat : (g.headD default).header.pid ≠ 1) (ds : List DemuxerData) (h : parseData g .none pm = .ok ds) :
+    ∃ d, parsePSIData.val (concatPayload g) = .ok d ∧ ds = psiToData d (firstOf g) (g.headD default).header.pid ∧
+      ∀ k s hd, d.sections[k]? = some s → s.header = some hd → hasCRC32 hd.tableID = true → hd.sectionLength > 0 →
+        PSIVerdict.secStart d k + 3 + hd.sectionLength ≤ (concatPayload g).length ∧
+        s.crc32 = beNat (PSIVerdict.slice (concatPayload g) (PSIVerdict.secStart d k + hd.sectionLength - 1) 4) ∧
+        (computeCRC32 (PSIVerdict.slice (concatPayload g) (PSIVerdict.secStart d k) (hd.sectionLength - 1))).toNat = s.crc32 := by
+  unfold parseData at h
+  simp only [] at h
+  have h1 : ((g.headD default).header.pid == 1) = false := by simpa using hcat
+  rw [if_neg (by rw [h1]; exact Bool.false_ne_true), if_pos (isPSIPayload_of_table pm _ htab)] at h
+  cases hv : parsePSIData.val (concatPayload g) with
+  | ok d =>
+    rw [hv] at h
+    simp only [Res.ok.injEq] at h
+    refine ⟨d, rfl, h.symm, ?_⟩
+    intro k s hd hk hh hcrc hsl
+    have := C09.crc_mismatch_never_delivered (concatPayload g) d hv k s hk hd hh hcrc hsl
+    exact ⟨this.2.1, this.2.2.1, this.2.2.2⟩
+  | err e => rw [hv] at h; cases h
+  | panic => rw [hv] at h; cases h
+
+/-! #### non-vacuity: a chain of four two-section PAT units (the bytes of `C02.exUnit`: 10 + 15 + 12 payload bytes, then a
+stuffing-only tail packet), counters 0..15 -/
+
+def tpk (cc : Nat) (pusi : Bool) (pl : Bytes) : Packet := C02.exTablePk (cc % 16) pusi pl
+
+def exTU (c : Nat) : TU :=
+  { u := ⟨tpk c true [0, 0, 176, 13, 0, 7, 199, 0, 0, 0],
+          [tpk (c + 1) false [1, 240, 0, 80, 134, 190, 104, 0, 176, 17, 0, 7, 199, 0, 0],
+           tpk (c + 2) false [0, 2, 240, 1, 0, 3, 240, 2, 184, 178, 78, 179], tpk (c + 3) false [0xff, 0xff, 0xff]]⟩
+    a := [tpk c true [0, 0, 176, 13, 0, 7, 199, 0, 0, 0], tpk (c + 1) false [1, 240, 0, 80, 134, 190, 104, 0, 176, 17, 0, 7, 199, 0, 0]]
+    pk := tpk (c + 2) false [0, 2, 240, 1, 0, 3, 240, 2, 184, 178, 78, 179]
+    b := [tpk (c + 3) false [0xff, 0xff, 0xff]] }
+
+def exTUs : List TU := [exTU 0, exTU 4, exTU 8, exTU 12]
+def exTStream : List Packet := (exTUs.map (·.u)).flatMap UnitPk.packets
+def ccTags (gs : List (List Packet)) : List (List Nat) := gs.map (·.map fun p => p.header.continuityCounter)
+def del (s : List Packet) (i n : Nat) : List Packet := s.take i ++ s.drop (i + n)
+def dataTags (gs : List (List Packet)) : List String := gs.map fun g =>
+  match parseData g .none [] with | .ok ds => s!"ok{ds.length}" | .err _ => "err" | .panic => "panic"
+
+theorem tpk_plain (cc : Nat) (pusi : Bool) (pl : Bytes) : PlainPayload (tpk cc pusi pl) := by
+  have : cc % 16 < 16 := Nat.mod_lt _ (by decide)
+  simp [PlainPayload, tpk, C02.exTablePk, pktDI, this]
+
+theorem exTU_ok (c : Nat) : (exTU c).OK := by
+  refine ⟨⟨tpk_plain _ _ _, rfl, ⟨tpk_plain _ _ _, rfl, ?_, tpk_plain _ _ _, rfl, ?_, tpk_plain _ _ _, rfl, ?_, trivial⟩⟩, rfl, ?_⟩
+  · simp only [exTU, tpk, C02.exTablePk]; omega
+  · simp only [tpk, C02.exTablePk]; omega
+  · simp only [tpk, C02.exTablePk]; omega
+  · refine ⟨0, [], [[0, 176, 13, 0, 7, 199, 0, 0, 0, 1, 240, 0, 80, 134, 190, 104],
+        [0, 176, 17, 0, 7, 199, 0, 0, 0, 2, 240, 1, 0, 3, 240, 2, 184, 178, 78, 179]], [0xff, 0xff, 0xff], ⟨rfl, rfl, ?_, by simp, by decide⟩,
+      by simp [exTU, tpk, C02.exTablePk, concatPayload], by simp [exTU, tpk, C02.exTablePk, concatPayload], ?_⟩
+    · intro s hs
+      simp only [List.mem_cons, List.not_mem_nil, or_false] at hs
+      rcases hs with rfl | rfl
+      · exact ⟨0, 176, 13, _, rfl, by decide, by decide⟩
+      · exact ⟨0, 176, 17, _, rfl, by decide, by decide⟩
+    · intro i hi hia j hj hjl
+      have hj1 : j = 1 := by simp at hjl; omega
+      subst hj1
+      have : i = 1 ∨ i = 2 := by simp [exTU] at hia; omega
+      rcases this with rfl | rfl <;> simp [exTU, tpk, C02.exTablePk, concatPayload]
+
+theorem exTUs_ok : ∀ t ∈ exTUs, t.OK := by
+  intro t ht
+  simp only [exTUs, List.mem_cons, List.not_mem_nil, or_false] at ht
+  rcases ht with rfl | rfl | rfl | rfl <;> exact exTU_ok _
+
+theorem exTUs_chain : ChainOK [] (exTUs.map (·.u)) := chainB_sound _ _ (by decide +kernel)
+
+/-- loss-free: each unit is flushed at its completing packet, its stuffing tail at the next unit start (or at the end); the
+units yield 2 PAT data each, the tails none -/
+example : ccTags (delivered [] 0 exTStream) = [[0, 1, 2], [3], [4, 5, 6], [7], [8, 9, 10], [11], [12, 13, 14], [15]]
+    ∧ dataTags (delivered [] 0 exTStream) = ["ok2", "ok0", "ok2", "ok0", "ok2", "ok0", "ok2", "ok0"] := by decide +kernel
+
+/-- the hypotheses of `table_loss_one_gap_no_splice` hold for every gap of 1..14 packets followed by a packet -/
+example (i n : Nat) (h1 : 1 ≤ n) (h2 : n ≤ 14) (h3 : i + n < 16) (g : List Packet) (hne : g ≠ [])
+    (hmem : g ∈ (accRun [] 0 [] (del exTStream i n)).1 ∨ g = (accRun [] 0 [] (del exTStream i n)).2) :
+    (∃ t ∈ exTUs, g = t.a ++ [t.pk]) ∨
+    (∃ t ∈ exTUs, Fragment t.u g ∧ ∀ p ∈ g, p.header.payloadUnitStartIndicator = false) := by
+  have hlen : exTStream.length = 16 := by decide +kernel
+  refine table_loss_one_gap_no_splice [] 0 (by decide) exTUs exTUs_ok exTUs_chain (exTStream.take i)
+    ((exTStream.drop i).take n) (exTStream.drop (i + n)) ?_ ?_ ?_ ?_ g hne hmem
+  · show exTStream = _
+    rw [List.append_assoc, ← List.drop_drop, List.take_append_drop, List.take_append_drop]
+  · rw [List.length_take, List.length_drop]; omega
+  · rw [List.length_take]; omega
+  · intro h
+    have := congrArg List.length h
+    rw [List.length_drop] at this
+    simp at this; omega
+
+/-- the completing packet (counter 6) of the second unit lost: its head `[4, 5]` is discarded at packet 7 (never delivered),
+the stuffing tail `[7]` is flushed by the next unit start and yields nothing; the other units are intact -/
+example : ccTags (delivered [] 0 (del exTStream 6 1)) = [[0, 1, 2], [3], [7], [8, 9, 10], [11], [12, 13, 14], [15]]
+    ∧ dataTags (delivered [] 0 (del exTStream 6 1)) = ["ok2", "ok0", "ok0", "ok2", "ok0", "ok2", "ok0"] := by decide +kernel
+
+/-- a packet BEFORE the completing packet lost (counter 5): the head `[4]` is discarded; the remainder is cut in two by a
+FALSE COMPLETE — packet 6 alone (bytes `00 02 f0 01 …`: pointer 0, a "section" of table id 2 and length 1, then another one
+that ends exactly at the end of the packet) looks complete and is flushed at once, as a fragment; the unit parser rejects
+it (error: no CRC-valid section there); `[7]` follows as a second fragment.  Nothing of unit 2 is delivered as data. -/
+example : ccTags (delivered [] 0 (del exTStream 5 1)) = [[0, 1, 2], [3], [6], [7], [8, 9, 10], [11], [12, 13, 14], [15]]
+    ∧ dataTags (delivered [] 0 (del exTStream 5 1)) = ["ok2", "ok0", "err", "ok0", "ok2", "ok0", "ok2", "ok0"]
+    ∧ isPSIComplete [tpk 6 false [0, 2, 240, 1, 0, 3, 240, 2, 184, 178, 78, 179]] = true := by decide +kernel
+
+/-- the unit start (counter 4) lost: the previous stuffing tail `[3]`, still queued, is discarded too; the headless
+remainder `[5, 6, 7]` never looks complete, is flushed by the next unit start and rejected by the unit parser -/
+example : ccTags (delivered [] 0 (del exTStream 4 1)) = [[0, 1, 2], [5, 6, 7], [8, 9, 10], [11], [12, 13, 14], [15]]
+    ∧ dataTags (delivered [] 0 (del exTStream 4 1)) = ["ok2", "err", "ok2", "ok0", "ok2", "ok0"] := by decide +kernel
+
+/-- a stuffing-only tail packet (counter 7) lost: no unit is affected (the unit before it was flushed at its completing
+packet) -/
+example : ccTags (delivered [] 0 (del exTStream 7 1)) = [[0, 1, 2], [3], [4, 5, 6], [8, 9, 10], [11], [12, 13, 14], [15]] := by
+  decide +kernel
+
+/-- a gap across a unit boundary (6, 7, 8 lost): head `[4, 5]` discarded, remainder `[9, 10, 11]` of the next unit flushed
+as a fragment -/
+example : ccTags (delivered [] 0 (del exTStream 6 3)) = [[0, 1, 2], [3], [9, 10, 11], [12, 13, 14], [15]]
+    ∧ dataTags (delivered [] 0 (del exTStream 6 3)) = ["ok2", "ok0", "err", "ok2", "ok0"] := by decide +kernel
+
+/-- the excluded point `B = []` (the completing packet and everything after it lost at the end of the stream): nothing
+reveals the gap; the end-of-stream drain hands over the head `[12, 13]` — a headed, incomplete group; the unit parser
+rejects it -/
+example : ccTags (delivered [] 0 (exTStream.take 14)) = [[0, 1, 2], [3], [4, 5, 6], [7], [8, 9, 10], [11], [12, 13]]
+    ∧ (dataTags (delivered [] 0 (exTStream.take 14))).getLast? = some "err" := by decide +kernel
+
+/-- **(L1, table PIDs) completeness: the units the gap does not touch are all delivered.**  `T1` / `T3`: the units before /
+after the units `M` that lost a packet (`x`: what was received of the first of them, `y`: what is received of the last of
+them; stuffing tails of at most 256 bytes, as in `C02.table_unit_flushed`).  Each unit of `T1 ++ T3` is flushed from its
+first to its completing packet.  In contrast with `loss_one_gap` (PES PIDs: "the unit immediately preceding the gap is
+discarded"), the unit that ends right before the gap survives on a table PID — it had already been flushed at its completing
+packet. -/
+theorem table_loss_one_gap_untouched_delivered (pm : ProgramMap) (pid : Nat) (htab : (pid == 0 || pm.has pid) = true)
+    (T1 M T3 : List TU) (hok : ∀ t ∈ T1 ++ M ++ T3, t.OK ∧ (concatPayload t.b).length ≤ 256)
+    (hc : ChainOK [] ((T1 ++ M ++ T3).map (·.u))) (x gap y : List Packet)
+    (hM : (M.map (·.u)).flatMap UnitPk.packets = x ++ gap ++ y)
+    (hlast : ∃ M' v w, M = M' ++ [v] ∧ v.u.packets = w ++ y ∧ w ≠ [])
+    (hg1 : 1 ≤ gap.length) (hg2 : gap.length ≤ 14) (hb : y ++ (T3.map (·.u)).flatMap UnitPk.packets ≠ []) :
+    ∀ t ∈ T1 ++ T3, t.a ++ [t.pk] ∈
+      (accRun pm pid [] (((T1.map (·.u)).flatMap UnitPk.packets ++ x) ++ (y ++ (T3.map (·.u)).flatMap UnitPk.packets))).1 :=
+  table_loss_untouched_delivered pm pid htab T1 M T3 hok hc x gap y hM hlast hg1 hg2 hb
+
+/-- non-vacuity: the completing packet of the second unit lost — units 1, 3 and 4 are delivered -/
+example : ∀ t ∈ [exTU 0] ++ [exTU 8, exTU 12], t.a ++ [t.pk] ∈
+    (accRun [] 0 [] ((([exTU 0].map (·.u)).flatMap UnitPk.packets ++ (exTU 4).a)
+      ++ ((exTU 4).b ++ ([exTU 8, exTU 12].map (·.u)).flatMap UnitPk.packets))).1 := by
+  refine table_loss_one_gap_untouched_delivered [] 0 (by decide) [exTU 0] [exTU 4] [exTU 8, exTU 12] ?_ exTUs_chain
+    (exTU 4).a [(exTU 4).pk] (exTU 4).b rfl ⟨[], exTU 4, (exTU 4).a ++ [(exTU 4).pk], rfl, rfl, by simp [exTU]⟩
+    (by simp) (by simp) (by simp [exTU])
+  intro t ht
+  exact ⟨exTUs_ok t ht, by
+    simp only [List.cons_append, List.nil_append, List.mem_cons, List.not_mem_nil, or_false] at ht
+    rcases ht with rfl | rfl | rfl | rfl <;> simp [exTU, tpk, C02.exTablePk, concatPayload]⟩
+
+end LossClauseTables
 
 end Astits.C06
